@@ -68,7 +68,7 @@ JudgeStep(be, own, pre, s) ==
    LET c == s.c  mac == c.op IN
    IF mac = "checking-macros-changed-state" THEN << <<"BAD", be, "(checking macros)", "-", "-", "checking-macro-changed-state", "-">> >>
    ELSE IF mac \notin CheckingMacros \cup ActingMacros THEN << <<"BAD", be, mac, "-", "-", "harness:unknown-macro", "-">> >>
-   ELSE IF (c.aok # "t" /\ VJ!Ambiguous(c.a)) \/ (mac \in TwoPathMacros /\ c.bok # "t" /\ VJ!Ambiguous(c.b)) THEN << <<"skip", "ambiguous-expansion">> >>
+   ELSE IF (c.aok = "f" /\ VJ!Ambiguous(c.a)) \/ (mac \in TwoPathMacros /\ c.bok = "f" /\ VJ!Ambiguous(c.b)) THEN << <<"skip", "ambiguous-expansion">> >>
    ELSE
    LET a == ArgsOf(pre, c)
        pn == s.pn = "t"
